@@ -35,14 +35,15 @@ TReset == /\ IsEvent("reset")
           /\ phase' = "resolve" /\ pc' = 1 /\ result' = <<>>
           /\ fixedLabels' = {} /\ labelPhs' = <<>> /\ usedQ' = {} /\ qubitPhs' = <<>> /\ cursor' = 0
 
-TTResolver == /\ IsEvent("tresolver") /\ phase = "resolve"
+\* the four events of a history come in this order; pc (unused otherwise here) counts them
+Stage(n) == /\ phase = "resolve" /\ pc = n /\ pc' = n + 1
+            /\ UNCHANGED <<body, mode, phase, fixedLabels, labelPhs, tmap, usedQ, qubitPhs, cursor, qmap, result>>
+TTResolver == /\ IsEvent("tresolver") /\ Stage(1)
               /\ Strict => FromPairs(Rec[l].map) = DefaultTMap(body)
-              /\ UNCHANGED vars
-TQResolver == /\ IsEvent("qresolver") /\ phase = "resolve"
+TQResolver == /\ IsEvent("qresolver") /\ Stage(2)
               /\ Strict => FromPairs(Rec[l].map) = DefaultQMap(body)
-              /\ UNCHANGED vars
 
-TResolved == /\ IsEvent("resolved") /\ phase = "resolve"
+TResolved == /\ IsEvent("resolved") /\ phase = "resolve" /\ pc = 3
              /\ LET r == Rec[l].result IN
                 /\ IF mode = "default" THEN DefaultOk(body, r)                          \* C34
                                        ELSE ExactlyTheReturnedOnes(body, r, tmap, qmap)
